@@ -24,7 +24,7 @@ pub fn cfg_for(f: Flavour) -> JGenCfg {
     Flavour::Faults => JGenCfg { faults: 28, locker: 30, stale_meta: 25, ..Default::default() },
     Flavour::Checksums => JGenCfg { faults: 10, locker: 100, https_imports: 30, ..Default::default() },
     Flavour::Mapping => JGenCfg { faults: 3, locker: 20, weird_exports: 15, stale_meta: 10, ..Default::default() },
-    Flavour::Versions => JGenCfg { faults: 3, locker: 10, prefer_cached: 50, stale_meta: 30, weird_exports: 2, seeds: 45, ..Default::default() },
+    Flavour::Versions => JGenCfg { faults: 3, locker: 10, prefer_cached: 50, stale_meta: 30, weird_exports: 2, seeds: 45, dates: 45, ..Default::default() },
     Flavour::Mixed | Flavour::Closure => JGenCfg::default(),
   }
 }
@@ -45,7 +45,7 @@ pub fn describe(c: &JCase) -> serde_json::Value {
     serde_json::Value::Object(o)
   };
   serde_json::json!({
-    "roots": c.roots, "prefer_cached_jsr_versions": c.prefer_cached, "lock_pkg": c.lock_pkg, "lock_remote": c.lock_remote, "lockfile_package_specifiers": c.seed,
+    "roots": c.roots, "prefer_cached_jsr_versions": c.prefer_cached, "newest_dependency_date": c.newest_date, "date_exclude": c.date_exclude, "date_exclude_prefixes": c.date_exclude_prefixes, "lock_pkg": c.lock_pkg, "lock_remote": c.lock_remote, "lockfile_package_specifiers": c.seed,
     "notes": c.notes, "use": show(&c.world.entries, false), "reload": show(&c.world.reload_entries, false),
     "only": show(&c.world.only_entries, true),
   })
@@ -88,6 +88,7 @@ pub fn case_of_judged(c: &JCase, extra_direct: Vec<String>, extra_dist: Vec<(Str
   dist.push((format!("jsr_locker_{}", c.lock_pkg.is_some()), 1));
   dist.push((format!("jsr_lockfile_seeds_{}", c.seed.len().min(3)), 1));
   dist.push((format!("jsr_prefer_cached_{}", c.prefer_cached), 1));
+  dist.push((format!("jsr_newest_dependency_date_{}", c.newest_date.is_some()), 1));
   dist.push((format!("jsr_content_loads_{}", built.log.iter().filter(|l| l.cache_setting == "only" && !l.specifier.ends_with("meta.json")).count().min(4)), 1));
   Case {
     input: Sx::L(vec![Sx::A(JSRTAG), a.world_sx.clone(), Sx::L(vec![Sx::b(c.prefer_cached)]), Sx::atoms(c.roots.iter().map(|r| a.it.spec(r)))]),
@@ -178,6 +179,7 @@ pub fn gen_case_scheduled(seed: u64, k: u64, tier: Tier) -> Case {
       let options = deno_graph::BuildOptions {
         executor: &exec,
         prefer_cached_jsr_versions: c.prefer_cached,
+        jsr_version_resolver: std::borrow::Cow::Owned(crate::jsrworld::version_resolver(&c)),
         locker: locker.as_mut().map(|l| l as &mut dyn deno_graph::source::Locker),
         ..Default::default()
       };
